@@ -37,6 +37,9 @@ func init() {
 		opt.Hooks = 1.0
 		opt.Explicit = 0.3
 		opt.HookReuse = 0.2
+		if err := c10AliasedHook(r); err != nil {
+			return err
+		}
 		return semCheck(r, "C10", tier, seed, opt, []string{"hook-", "preprocess-saw", "postprocess-did-not"},
 			"hook signature product (destination/source by pointer or value, with/without error, with/without the additional parameters) x non-reverse method shapes (styles, receiver, pointer-ness, arguments); instrumented hooks record deep copies and addresses of their operands; checks: each hook called exactly once, preprocess first on a destination with no field assigned yet, postprocess last on the fully assigned destination, pointer-taking hooks receive the function's own destination object, source and additional arguments equal the function's; non-trivial = at least one hook executed; distinct by file contents")
 	}
